@@ -30,7 +30,10 @@ func (g *gen) pick(label string, weights ...int) int {
 	for _, w := range weights {
 		total += w
 	}
-	x := rapid.IntRange(0, total-1).Draw(g.rt, label)
+	// rapid's integer generators favour small values; spread them so the weights mean what they say
+	// (0 still maps to the first option, which is where shrinking ends up)
+	u := rapid.Uint64().Draw(g.rt, label)
+	x := int((u * 0x9E3779B97F4A7C15 >> 33) % uint64(total))
 	for i, w := range weights {
 		if x < w {
 			return i
@@ -38,6 +41,15 @@ func (g *gen) pick(label string, weights ...int) int {
 		x -= w
 	}
 	return len(weights) - 1
+}
+
+// uniform draws an index in [0,n) without rapid's small-value bias.
+func (g *gen) uniform(label string, n int) int {
+	w := make([]int, n)
+	for i := range w {
+		w[i] = 1
+	}
+	return g.pick(label, w...)
 }
 
 func (g *gen) intn(label string, lo, hi int) int { return rapid.IntRange(lo, hi).Draw(g.rt, label) }
@@ -377,6 +389,9 @@ func (g *gen) idMember() (*jv, string) {
 		kind = "special"
 		v = sample(g, "specialid", jint(0), jint(-1), jnum("-0"), jnum("123456789012345678901234567890"), jnum("1e2"), jnum("1E400"),
 			jstr(""), jstr("ид✓😀"), jstr("a\"b\\c\n\u0000"), jstr("<&>"), jstr("1"), jstr(strings.Repeat("i", 300)), jstr("null"))
+		if g.strict && v.k == '#' && !intLit.MatchString(v.s) {
+			v = jint(0)
+		}
 		if len(g.ids) > 0 && g.pick("reuse", 2, 1) == 1 {
 			v, kind = g.ids[g.intn("reuseid", 0, len(g.ids)-1)], "duplicate"
 		}
@@ -431,7 +446,7 @@ func (g *gen) requestObject() *jv {
 	var sp *mspec
 	switch g.pick("meth", 78, 8, 3, 3, 3, 2, 3) {
 	case 0:
-		sp = methodSpecs[g.intn("method", 0, len(methodSpecs)-1)]
+		sp = methodSpecs[g.uniform("method", len(methodSpecs))]
 		if sp.name == "nilResult" && stats.Known(kNilRes) {
 			g.c.Excluded(kNilRes)
 			sp = specByName["noParams"]
@@ -669,10 +684,6 @@ func (g *gen) document() ([]byte, docInfo) {
 	case 2:
 		v = sample(g, "toplevel", jnull(), jint(1), jnum("1.5"), jstr("noParams"), jstr(""), jbool(true), jbool(false), jobj())
 		info.kind = "toplevel-non-request"
-		if v.k != 'n' && v.k != 'o' && stats.Known(kScalar) {
-			g.c.Excluded(kScalar)
-			v = jnull()
-		}
 	case 3:
 		// a rendered request damaged at byte level
 		if g.pick("brokenbase", 1, 1) == 0 {
